@@ -849,7 +849,7 @@ func C14Child(mode, tier string, seed int64) {
 		c14History(st, inputs, 200/scale+10, mode == "race", false)
 	}
 	for rep := 0; rep < reps; rep++ {
-		for _, cfg := range [][2]int{{4, 2}, {16, 16}, {64, 16}, {16, 2}} {
+		for _, cfg := range [][2]int{{4, 2}, {16, 16}, {64, 16}, {16, 2}, {8, 1}} {
 			ops := 24000 / scale / cfg[0] * 4
 			if !quick {
 				ops *= 2
@@ -1145,7 +1145,7 @@ func CheckC14(c *Ctx) {
 		c.Extra["yield_points_inserted"] = s
 	}
 	c.SetReport(Report{
-		Rule:        "four builds of the CURRENT tree (plain; -race; -race after the AST yield-point pass that inserts seeded Gosched/sleep calls at loop heads and after call statements of go-cvss; -asan in thorough). In each: (1) baselines of ~40 inputs per version computed after forced double GC in forward and reverse order (must agree with each other, with the grammar/canonical-form oracles and -- plain build -- with the same call made as the first call of a fresh process); (2) sequential histories hostile to pooled scratch buffers under GOMAXPROCS(1)+GC off: ALL ordered pairs per version, all triples for v2 (1/7 for others), random sequences of 2-50 calls across versions -- every result must equal its baseline; (3) goroutines {4,16,64} x GOMAXPROCS {2,16} hammering the small shared input set, plus a hot-keys phase per repetition over only 2-4 inputs (parse, everything observable of shared read-only objects, Set on local copies, parse-mutate-parse, Rating) with results compared to baselines; (0) cold concurrent starts: short-lived processes in which NO go-cvss call has happened yet release 8-24 goroutines together, round by round, on the same parse + score + Vector call (550 first-use rounds each), judged against the spec oracles; (4) every Vector() string kept next to an immediate clone and re-compared later, forced GC every 10k events. Race reports are counted from the GORACE log (never from the exit code) and de-duplicated by first-frame pair. evaluations = events; distinct = distinct (previous call, current call) context pairs summed over builds",
+		Rule:        "four builds of the CURRENT tree (plain; -race; -race after the AST yield-point pass that inserts seeded Gosched/sleep calls at loop heads and after call statements of go-cvss; -asan in thorough). In each: (1) baselines of ~40 inputs per version computed after forced double GC in forward and reverse order (must agree with each other, with the grammar/canonical-form oracles and -- plain build -- with the same call made as the first call of a fresh process); (2) sequential histories hostile to pooled scratch buffers under GOMAXPROCS(1)+GC off: ALL ordered pairs per version, all triples for v2 (1/7 for others), random sequences of 2-50 calls across versions -- every result must equal its baseline; (3) goroutines {4,8,16,64} x GOMAXPROCS {1,2,16} hammering the small shared input set, plus a hot-keys phase per repetition over only 2-4 inputs (parse, everything observable of shared read-only objects, Set on local copies, parse-mutate-parse, Rating) with results compared to baselines; (0) cold concurrent starts: short-lived processes in which NO go-cvss call has happened yet release 8-24 goroutines together, round by round, on the same parse + score + Vector call (550 first-use rounds each), judged against the spec oracles; (4) every Vector() string kept next to an immediate clone and re-compared later, forced GC every 10k events. Race reports are counted from the GORACE log (never from the exit code) and de-duplicated by first-frame pair. evaluations = events; distinct = distinct (previous call, current call) context pairs summed over builds",
 		DistinctN:   distinct,
 		Assumptions: []string{"the race detector sees only executed pairs of accesses; interleavings are explored, not enumerated", "in the plain build every baseline is also recomputed as the first call of a freshly started process; the sanitizer builds rely on the double-GC baseline"},
 	})
